@@ -93,7 +93,8 @@ func checkDocumentShape(node *yaml.Node, target reflect.Type, checked map[checke
 
 			// a merge key (`<<: *defaults`, `<<: [*a, *b]`) brings the keys of other mappings
 			// into this one: they are checked as keys of this mapping.
-			if key.Tag == "!!merge" {
+			// (the decoder takes the key `<<` for one, whatever else is tagged !!merge is an ordinary key)
+			if key.Tag == "!!merge" && key.Value == "<<" {
 				if err := checkMergedMappings(node.Content[i+1], target, checked); err != nil {
 					return err
 				}
